@@ -188,7 +188,7 @@ PROPS['C05'] = dict(
 )
 # ------------------------------------------------------------------ C06
 def c06_proj(c, line, is_impl):
-    if line == 'HANG': return ('HANG',)          # the harness watchdog: the call did not return
+    if line in ('HANG', 'CRASH'): return (line,)      # the harness watchdog: the call did not return / the process died on this case
     if c[0] == 'Q':
         outs = line.split('|')[0].split(',')
         return tuple(i for i, o in enumerate(outs) if o == 'PANIC')
